@@ -6,9 +6,18 @@ C20 — model of `etl::pair` (include/etl/_utility/pair.hpp), `etl::tuple` and i
 
 Values.  An element is a pair (kind, value).  The kind says how the C++ element type reacts to
 copy and move (`int`, an instrumented copyable+movable class, a move-only class, a copy-only class,
-`int&`, `int const`); what a *move* leaves behind (`residue`) and how many *copy* operations an
+`int&`, `int const`, and - for pair - a reference / const reference to the instrumented class);
+what a *move* leaves behind (`residue`) and how many *copy* operations an
 operation performs are observables of the harness, so "an rvalue is forwarded as an rvalue" is a
 statement about values here: a moved-from instrumented element reads -1, a copied one is counted.
+
+Reference kinds.  CONSTRUCTING an element of reference kind binds the reference: nothing is copied,
+nothing is moved from (`copyCost` = `moveCost` = 0, `residue` keeps the value).  ASSIGNING to one
+assigns through it to the referent, and an element of reference kind that is handed on with
+`forward<T&>(p.first)` is an lvalue: the referent is copy-assigned (counted for the instrumented
+class) and keeps its value.  Hence the cost of an assignment (`assignCost`, `moveAssignCost`) is a
+different function of the kind than the cost of a construction (`copyCost`, `moveCost`); the two agree on
+every kind that is not a reference to the instrumented class.
 
 Calls.  A call of an instrumented target appends one `Call` to a log: the target, the value
 category through which the target object itself was called, and per argument the value category
@@ -32,32 +41,90 @@ inductive EK where
   | co    -- copy-only class: no move operations declared, an rvalue is copied (counted)
   | ref   -- `int&`
   | cst   -- `int const`
+  | tref  -- `Trk&`: reference to an object of the instrumented class (pair lines only)
+  | tcref -- `Trk const&`: const reference to an object of the instrumented class (pair lines only)
   deriving Repr, DecidableEq, Inhabited
 
-/-- value left in an element that has been moved from -/
+/-- value left in the object an element designates after the element has been handed on as
+    `forward<T>(element)` / `move(member)` to a constructor or an assignment: an rvalue of the instrumented
+    or the move-only class is moved from; for a reference kind `forward<T&>` is an lvalue and the referent
+    keeps its value -/
 def EK.residue : EK → Int → Int
   | .trk, _ => -1
   | .mo, _ => -1
   | _, v => v
 
-/-- counted copy operations performed by one copy construction / copy assignment -/
+/-- counted copy operations performed by one copy CONSTRUCTION of an element (a reference element is bound:
+    no copy) -/
 def EK.copyCost : EK → Nat
   | .trk => 1
   | .co => 1
   | _ => 0
 
-/-- counted copy operations performed by one move construction / move assignment -/
+/-- counted copy operations performed by one move CONSTRUCTION of an element (`first(forward<U1>(p.first))`;
+    a reference element is bound: no copy) -/
 def EK.moveCost : EK → Nat
   | .co => 1
+  | _ => 0
+
+/-- counted copy operations performed by one copy ASSIGNMENT `first = p.first` from an element of this kind
+    (a reference element is assigned through: the referent is copy-assigned) -/
+def EK.assignCost : EK → Nat
+  | .trk => 1
+  | .co => 1
+  | .tref => 1
+  | .tcref => 1
+  | _ => 0
+
+/-- counted copy operations performed by one move ASSIGNMENT `first = forward<T>(p.first)` from an element of
+    this kind: the copy-only class copies, and for a reference kind `forward<T&>(p.first)` is an lvalue, so the
+    referent is copy-assigned -/
+def EK.moveAssignCost : EK → Nat
+  | .co => 1
+  | .tref => 1
+  | .tcref => 1
   | _ => 0
 
 def EK.copyable : EK → Bool
   | .mo => false
   | _ => true
 
+/-- `is_assignable_v<T&, ...>` can hold at all: not for a const object or a reference to const -/
 def EK.assignable : EK → Bool
   | .cst => false
+  | .tcref => false
   | _ => true
+
+/-- the class of the object an element of this kind is or refers to -/
+inductive Base where
+  | int | trk | mo | co
+  deriving Repr, DecidableEq, Inhabited
+
+def EK.base : EK → Base
+  | .int | .ref | .cst => .int
+  | .trk | .tref | .tcref => .trk
+  | .mo => .mo
+  | .co => .co
+
+/-- `forward<U>(p.first)` for an element of kind `U` is an rvalue unless `U` is a reference -/
+def EK.forwardsRvalue : EK → Bool
+  | .ref | .tref | .tcref => false
+  | _ => true
+
+/-- `x = e` where `x` is an object of class `b` (a member, or the referent of a reference member) and `e`
+    designates an object of the same class holding `y`, as an rvalue (`rv`) or as an lvalue: what the
+    assignment operator of the class leaves in the source, and the copies it counts.
+    (`Trk::operator=(Trk&&)` moves, `Trk::operator=(Trk const&)` copies and counts; the copy-only class has
+    only the counted copy assignment; the move-only class has only the move assignment - an lvalue of it is
+    not assignable, the drivers never ask.) -/
+def Base.assignFrom (b : Base) (rv : Bool) (y : Int) : Int × Nat :=
+  match b, rv with
+  | .int, _ => (y, 0)
+  | .trk, true => (-1, 0)
+  | .trk, false => (y, 1)
+  | .mo, true => (-1, 0)
+  | .mo, false => (y, 0)
+  | .co, _ => (y, 1)
 
 /-- `T x = static_cast<T const&&>(y)`: a const rvalue can only be copied -/
 abbrev El := EK × Int
@@ -92,15 +159,42 @@ abbrev El2 := EK × Int × Int
 /-- `first = p.first; second = p.second;` — new value of `a`, copies -/
 def assignAll : List El2 → List Int × Nat
   | [] => ([], 0)
-  | (k, _, y) :: t => let r := assignAll t; (y :: r.1, k.copyCost + r.2)
+  | (k, _, y) :: t => let r := assignAll t; (y :: r.1, k.assignCost + r.2)
 
-/-- `first = move(p.first); second = move(p.second);` — new `a`, new `b`, copies -/
+/-- `first = forward<first_type>(p.first); second = forward<second_type>(p.second);` (pair, after the `fix:`
+    commits of round C20s) / `get<I>(*this) = get<I>(move(other))` (tuple) — new `a`, new `b`, copies -/
 def moveAssignAll : List El2 → List Int × List Int × Nat
   | [] => ([], [], 0)
-  | (k, _, y) :: t => let r := moveAssignAll t; (y :: r.1, k.residue y :: r.2.1, k.moveCost + r.2.2)
+  | (k, _, y) :: t => let r := moveAssignAll t; (y :: r.1, k.residue y :: r.2.1, k.moveAssignCost + r.2.2)
+
+/-- an element of `a` of kind `kd` (destination) together with the element of `b` of kind `ks` (source) at the
+    same index: (kd, ks, x, y).  The destination kind selects nothing observable - whether `first` is a member or
+    a reference to an object, the assignment operator of the class runs on it - it is carried for the
+    applicability predicate of the driver (`is_assignable_v<T1&, U1 const&>` / `is_assignable_v<T1&, U1>`). -/
+abbrev ElX := EK × EK × Int × Int
+
+/-- converting copy assignment `pair<T1,T2>::operator=(pair<U1,U2> const& p)`: `first = p.first; second = p.second;`
+    — `p.first` is an lvalue whatever `U1` is; new value of `a`, copies -/
+def convAssignAll : List ElX → List Int × Nat
+  | [] => ([], 0)
+  | (_, ks, _, y) :: t =>
+    let e := ks.base.assignFrom false y
+    let r := convAssignAll t
+    (y :: r.1, e.2 + r.2)
+
+/-- converting move assignment `pair<T1,T2>::operator=(pair<U1,U2>&& p)`:
+    `first = forward<U1>(p.first); second = forward<U2>(p.second);` (after the `fix:` commits of round C20s;
+    before them `move(p.first)`, which moved from the referent of a reference element) — new `a`, new `b`, copies -/
+def convMoveAssignAll : List ElX → List Int × List Int × Nat
+  | [] => ([], [], 0)
+  | (_, ks, _, y) :: t =>
+    let e := ks.base.assignFrom ks.forwardsRvalue y
+    let r := convMoveAssignAll t
+    (y :: r.1, e.1 :: r.2.1, e.2 + r.2.2)
 
 /-- `etl::swap(x, y)`: `T temp(move(x)); x = move(y); y = move(temp);` on one element:
-    new x, new y, copies -/
+    new x, new y, copies.  (For a reference element `x`, `y` are the referents and `T` is their class: three moves
+    of the instrumented class, no copy - `moveCost` is 0 for the reference kinds.) -/
 def swapElem (k : EK) (x y : Int) : Int × Int × Nat :=
   let temp := x                 -- T temp(move(x));  x now holds k.residue x
   let x1 := y                   -- x = move(y);      y now holds k.residue y
